@@ -20,15 +20,15 @@ func init() {
 		Assumptions: []string{"grammar slots: for [init; cond; post], if [init; cond], switch [tag] { case exprs: }", "well-typed scripts supply matching value/target counts"},
 		Quick: []ruleDef{
 			{"PAR-ROLE", 10, ruleParRole},
-			{"HND-LOCALBASE", 156, ruleHndLocalBase},
-			{"FRM-ADDR", 23, ruleFrmAddr},
+			{"HND-LOCALBASE", 97, ruleHndLocalBase},
+			{"FRM-ADDR", 14, ruleFrmAddr},
 			{"FRM-SLOTS", 2, ruleFrmSlots},
 			{"FRM-PAIR", 6, ruleFrmPair},
-			{"HND-FIELDS", 65, ruleHndFields},
+			{"HND-FIELDS", 60, ruleHndFields},
 			{"PAR-RESIZE", 5, ruleParResize},
-			{"INS-PATCH", 10, ruleInsPatch},
+			{"INS-PATCH", 3, ruleInsPatch},
 			{"PAR-GLOBALIDX", 3, ruleParGlobalIdx},
-			{"LAY-DEPTH", 87, ruleLayDepth},
+			{"LAY-DEPTH", 54, ruleLayDepth},
 		},
 	})
 	register(&propDef{
@@ -40,12 +40,12 @@ func init() {
 			{"FRM-CHECKS", 3, ruleFrmChecks},
 			{"FRM-VARIADIC", 4, ruleFrmVariadic},
 			{"LAY-FUNC", 8, ruleLayFunc},
-			{"FRM-METHOD", 4, ruleFrmMethod},
-			{"FRM-REDEFINE", 4, ruleFrmRedefine},
+			{"FRM-METHOD", 3, ruleFrmMethod},
+			{"FRM-REDEFINE", 3, ruleFrmRedefine},
 			{"FRM-PARAMSLOT", 1, ruleFrmParamSlot},
 			{"LAY-EVALORDER", 1, ruleLayEvalOrder},
 			{"REP-TYPEDSTORE", 9, ruleRepTypedStore},
-			{"JOINSPLIT", 115, ruleJoinSplit},
+			{"JOINSPLIT", 100, ruleJoinSplit},
 		},
 	})
 }
